@@ -207,7 +207,7 @@ def tasks(tier, seed):
     from ..contracts import curvesv
     # shape level, all curves: knot_clean / degree_clean / clean terminate (variants npts + degree, degree), keep the representation invariant, never grow the
     # curve, and raise only AssertionError for a negative tolerance with the curve unchanged
-    ts = [(verify, (c, m, q, v)) for c, m, q, v in curvesv.ALL if q in ("Curve.knot_clean", "Curve.degree_clean", "Curve.clean")]
+    ts = curvesv.tasks_for(("Curve.knot_clean", "Curve.degree_clean", "Curve.clean"))
     for p, cells in shapes(tier):
         for variant in ((0, 1) if tier == "quick" else (0, 1, 2)):
             ts.append((task_clean, (p, cells, variant, tier)))
